@@ -80,12 +80,16 @@ def gen(rng, tier):
                     cases.append(("hs", b"13", "valid", b"Upgrade", b"websocket", hv, pr, ex, dec))
     # ---- closing orders -------------------------------------------------------------------------
     for hv in ("1.1", "2"):
-        for order in ("client_code", "client_nocode", "server", "eof", "reset", "server_then_client_silent", "client_code_echo_fails"):
-            codes = {"client_code": [1000, 1001, 3000, 4999], "server": [1000, 1001, 3999, 4000], "client_code_echo_fails": [1001, 3000, None]}.get(order, [None])
+        for order in ("client_code", "client_nocode", "server", "eof", "reset", "server_then_client_silent", "client_code_echo_fails",
+                      "server_write_blocked_then_client"):
+            codes = {"client_code": [1000, 1001, 3000, 4999], "server": [1000, 1001, 3999, 4000], "client_code_echo_fails": [1001, 3000, None],
+                     "server_write_blocked_then_client": [1000, 1001]}.get(order, [None])
             for code in codes:
                 for reason in (None, "bye"):
                     if order != "server" and reason:
                         continue
+                    if order == "server_write_blocked_then_client" and hv == "2":
+                        continue  # HTTP/1.1 carrier only (the write is held up at the transport)
                     cases.append(("close", hv, order, code, reason))
     # ---- requests that carry handshake fields but are not openings: no upgrade may be attempted ------------
     for method in (b"POST", b"OPTIONS", b"HEAD", b"PUT", b"DELETE"):
@@ -155,7 +159,7 @@ def _hs_case(rng, n, ver, key, conn, upg, hv, pr, ex, dec):
 def _close_case(rng, n, hv, order, code, reason):
     path = b"/t%d" % n
     truth = {"kind": "close", "hv": hv, "order": order, "code": code, "reason": reason}
-    if order in ("server", "server_then_client_silent"):
+    if order in ("server", "server_then_client_silent", "server_write_blocked_then_client"):
         script = _decision_script(("accept_then_close", code if code is not None else 1000, reason))
     else:
         script = _decision_script(("accept", None, None))
@@ -196,6 +200,11 @@ def _close_case(rng, n, hv, order, code, reason):
         client += [["trigger", "go"], ["settle"]]
     elif order == "server_then_client_silent":
         client += [["trigger", "go"], ["settle"], ["eof"]]
+    elif order == "server_write_blocked_then_client":
+        # simultaneous close, the server's first: its Close frame is still waiting to be written (client not reading) when the
+        # client's own Close arrives
+        rspec["echo_close"] = False
+        client += [["pause"], ["trigger", "go"], ["settle"], ["feed", ws.close_frame(1001, b"")], ["settle"], ["resume"], ["settle"]]
     elif order == "eof":
         client += [["eof"]]
     else:
@@ -345,7 +354,7 @@ def check(case, obs, tally):
         exp = t["code"] if t["code"] is not None else 1005
     elif order == "client_nocode":
         exp = 1005
-    elif order in ("server", "server_then_client_silent"):
+    elif order in ("server", "server_then_client_silent", "server_write_blocked_then_client"):
         exp = 1000
     else:
         exp = 1006
